@@ -116,4 +116,18 @@ theorem drainQ_skip_not_ready (ready : Entry → Bool) (cnt : Option Nat) (e : E
   have : (cnt == some 0) = false := by simpa using h0
   simp [drainQ, this, hr]
 
+/-- `get` never hands out more than it was asked for. -/
+theorem getBatch_length_le (ready : Entry → Bool) (n : Nat) (q : Queues) :
+    (getBatch ready (some n) q).1.length ≤ n := by
+  unfold getBatch
+  by_cases h0 : n = 0
+  · simp [h0]
+  · have hz : ((some n : Option Nat) == some 0) = false := by simp [h0]
+    simp only [hz, Bool.false_eq_true, if_false]
+    split
+    · have := drainQ_length_le ready 1 q.serial
+      simp only
+      omega
+    · exact drainQ_length_le ready n q.conc
+
 end Cuke.SchedL
